@@ -8,6 +8,7 @@ import (
 	"path/filepath"
 	"sort"
 	"strings"
+	"sync"
 	"time"
 
 	. "github.com/gontainer/gontainer/xverif/core"
@@ -113,6 +114,9 @@ func (o c08obs) key() string {
 	return fmt.Sprintf("%d|%s|%s|%s", o.exit, Sha(o.out), Sha(o.output), Sha(o.panic))
 }
 
+// c08diverged: set by c08run when a recorded plan no longer fits the sequence of choice points it meets.
+var c08diverged string
+
 type c08point struct {
 	site string
 	n    int
@@ -136,12 +140,20 @@ func c08run(w *W, cfg c08cfg, plan map[int]int) (c08obs, []c08point) {
 	args = append(args, "-o", "out.go")
 	args = append(args, cfg.flags...)
 	var points []c08point
+	var mu sync.Mutex
+	c08diverged = ""
 	vmap.Chooser = func(site string, n int) int {
+		mu.Lock() // the tool under test may range over maps from goroutines of its own
+		defer mu.Unlock()
 		i := len(points)
 		points = append(points, c08point{site, n})
 		c := plan[i]
 		if c >= vmap.NumAlternatives(n) {
-			panic(fmt.Sprintf("replay divergence: choice %d out of range at point %d (%s, n=%d)", c, i, site, n))
+			// the plan was recorded on a run with the same choices up to here: the sequence of iterations is not reproducible
+			if c08diverged == "" {
+				c08diverged = fmt.Sprintf("choice %d is out of range at point %d (%s, %d entries): the same choices led to a different sequence of map iterations than before", c, i, site, n)
+			}
+			return 0
 		}
 		return c
 	}
@@ -240,7 +252,10 @@ func init() {
 					c.Add("transitions", int64(len(basePoints)))
 					c.Count("traces")
 					c.Distinct("nontrivial", c.ID)
-					again, _ := c08run(w, cfg, nil)
+					again, againPoints := c08run(w, cfg, nil)
+					if fmt.Sprint(againPoints) != fmt.Sprint(basePoints) {
+						c.Violation("choice-sequence-not-reproducible:"+cfg.id, fmt.Sprintf("two runs with the canonical order of every map meet different sequences of map iterations (%d vs %d points): something other than the input decides what the tool does", len(basePoints), len(againPoints)), FilesMap(cfg.files()), nil)
+					}
 					if again.key() != base.key() {
 						c.Violation("not-repeatable:"+cfg.id, "two runs with the canonical order differ: "+firstDiff(base.out, again.out), FilesMap(cfg.files()), nil)
 					}
@@ -277,6 +292,10 @@ func init() {
 										}
 										np[pi] = alt
 										obs, pts := c08run(w, cfg, np)
+										if c08diverged != "" {
+											c.Violation("choice-sequence-not-reproducible:"+cfg.id, "replaying a recorded choice plan: "+c08diverged, FilesMap(cfg.files()), map[string]any{"plan": fmt.Sprint(np)})
+											return
+										}
 										c.Distinct("states", cfg.id+"|"+fmt.Sprint(np))
 										c.Distinct("nontrivial", cfg.id+"|"+fmt.Sprint(np))
 										c.Add("transitions", int64(len(pts)))
@@ -287,7 +306,8 @@ func init() {
 											// replay twice before believing it
 											again, _ := c08run(w, cfg, np)
 											if again.key() != obs.key() {
-												panic("replay of a choice plan gave a different observation: harness nondeterminism")
+												c.Violation("not-repeatable:"+cfg.id, "two runs under the same choice plan differ: "+firstDiff(obs.out+obs.output, again.out+again.output), FilesMap(cfg.files()), map[string]any{"plan": fmt.Sprint(np)})
+												return
 											}
 											what := "printed report"
 											d := firstDiff(base.out, obs.out)
@@ -514,6 +534,8 @@ func init() {
 							os.MkdirAll(filepath.Join(dir, dd), 0o755)
 							os.WriteFile(filepath.Join(dir, dd, "decoy.go"), []byte(strings.Replace(decoy, "package decoy", "package "+filepath.Base(dd), 1)), 0o644)
 						}
+						// ... and inside a Go module whose path is a prefix of the packages the configuration imports
+						os.WriteFile(filepath.Join(dir, "second", "elsewhere", "go.mod"), []byte("module fx\n\ngo 1.21\n"), 0o644)
 						for _, sub := range []string{"first/project", "second/elsewhere/project"} {
 							root := filepath.Join(dir, sub)
 							for _, f := range files {
